@@ -31,7 +31,12 @@ func labelOfValue(v *am.Value) Label {
 // Instantiate builds the functions and option values of a scenario.  Tokens
 // 1..len(inputs) are the supplied values in scenario order.
 func Instantiate(s Scenario, r *rand.Rand) (b *Built, err error) {
+	return instantiate(s, r, 0)
+}
+
+func instantiate(s Scenario, r *rand.Rand, tok0 int) (b *Built, err error) {
 	env := NewEnv(len(s.Convs))
+	env.Next = tok0
 	b = &Built{Env: env, S: s}
 	vals := make([]interface{}, len(s.Inputs))
 	for j, l := range s.Inputs {
@@ -39,14 +44,21 @@ func Instantiate(s Scenario, r *rand.Rand) (b *Built, err error) {
 		b.Toks = append(b.Toks, t)
 		vals[j] = MkValue(l.Type, t).Interface()
 	}
-	if s.Mode == "convert" {
+	if s.Mode == "convert" || s.Mode == "convcall" {
 		s.NDef = 0 // Convert has no function to attach defaults to
 	}
 	var defaults []am.Arg
 	for j := 0; j < s.NDef && j < len(s.Inputs); j++ {
 		defaults = append(defaults, apiArg(s.Inputs[j], vals[j], r.Intn(6)))
 	}
-	if s.Mode != "convert" {
+	if s.Family == "C16" { // option-processing family: vary the case of the names on the function side too
+		s.Target.Upper = r.Intn(2) == 0
+		if s.Target.Upper && r.Intn(2) == 0 {
+			s.Target.Form = "built"
+			s.Target.HasErr = true
+		}
+	}
+	if s.Mode != "convert" && s.Mode != "convcall" {
 		b.Target, err = env.Build(0, s.Target, defaults...)
 		if err != nil {
 			return b, fmt.Errorf("newfunc target: %w", err)
@@ -286,6 +298,24 @@ func (b *Built) Execute(r *rand.Rand) {
 	case "call":
 		res := b.Target.Call(args...)
 		env.emit(b.classify(res, s.Phase0))
+	case "convcall":
+		// C10: Convert(T, args) and, on a second, freshly built and identically numbered set of objects
+		// (tokens shifted by TokOffset), Call of a function func(T) T with the same args
+		conv := *b
+		conv.S.Mode = "convert"
+		conv.Execute(r)
+		twin := s
+		twin.Mode = "call"
+		twin.Phase0 = s.Phase0 + 1
+		b2, err := instantiate(twin, r, TokOffset)
+		if err != nil {
+			ret := emptyRet("builderr", s.Phase0+1)
+			ret.Detail = firstLine(err.Error())
+			env.emit(ret)
+			break
+		}
+		b2.Execute(r)
+		env.Events = append(env.Events, b2.Env.Events...)
 	case "convert":
 		tt := TypeOf(s.Target.In[0].Type)
 		v, err := am.Convert(tt, args...)
@@ -297,9 +327,7 @@ func (b *Built) Execute(r *rand.Rand) {
 			ret.ValTok = IDOf(rv)
 			if rv.IsValid() {
 				ret.ValType = TypeName(rv.Type())
-				if !rv.Type().AssignableTo(tt) {
-					ret.ValType = "!" + ret.ValType
-				}
+				ret.ValOK = rv.Type().AssignableTo(tt)
 			}
 		} else {
 			b.classifyErr(err, &ret)
